@@ -19,6 +19,9 @@ const (
 	// maxRTPPacketSize represents the maximum size of an RTP packet buffer.
 	// This is a reasonable upper bound for typical RTP packets.
 	maxRTPPacketSize = 1500
+	// maxFlexFec03MediaPackets is the number of media packets the FlexFEC-03 masks can name:
+	// 15 + 31 + 63 bits (positions 0..108).
+	maxFlexFec03MediaPackets = 109
 )
 
 var bufferPool = sync.Pool{ //nolint:gochecknoglobals
@@ -55,10 +58,11 @@ func NewFlexEncoder03(payloadType uint8, ssrc uint32) *FlexEncoder03 {
 }
 
 // EncodeFec returns a list of generated RTP packets with FEC payloads that protect the specified mediaPackets.
-// This method returns nil in case of missing RTP packets in the mediaPackets array or packets passed out of order.
+// This method returns nil in case of missing RTP packets in the mediaPackets array, packets passed out of order
+// or more than 109 media packets (the FlexFEC-03 masks cover positions 0..108).
 func (flex *FlexEncoder03) EncodeFec(mediaPackets []rtp.Packet, numFecPackets uint32) []rtp.Packet {
-	// Check if mediaPackets is empty
-	if len(mediaPackets) == 0 {
+	// Check if mediaPackets is empty or has more packets than the FlexFEC-03 masks can name
+	if len(mediaPackets) == 0 || len(mediaPackets) > maxFlexFec03MediaPackets {
 		return nil
 	}
 
